@@ -67,6 +67,7 @@ func foldInto(tc skCfg, sc skCfg, sk *skModel) *skModel {
 	k.zero = sk.zero
 	k.vals = append(k.vals, sk.vals...)
 	k.truth = append(k.truth, sk.truth...)
+	k.amp = sk.amp // (the allowance for subnormal rounding errors amplified by scale-ups travels with the content)
 	return k
 }
 
@@ -383,5 +384,74 @@ func TestC06_FarIndexes(t *testing.T) {
 		cl.label("non-empty-receiver")
 		cl.label("concatenation")
 		cl.done(src.span > math.MaxInt32)
+	})
+}
+
+// TestC06_WideContiguous: dense-family producers holding a run of 65 530 .. 140 000 consecutive non-empty bins (the
+// contiguous layout then announces a bin count around and above 2^16 and 2^17), decoded into every store kind.
+func TestC06_WideContiguous(t *testing.T) {
+	rapid.Check(t, func(t *rapid.T) {
+		cl := newCase("C06")
+		n := rapid.SampledFrom([]int{65530, 65535, 65536, 65537, 70000, 131071, 131072, 131073, 140000}).Draw(t, "run")
+		base := rapid.SampledFrom([]int{0, -n / 2, 1000, -200000, 1 << 20}).Draw(t, "base")
+		prod := rapid.SampledFrom([]gen.StoreKind{{Name: "dense"}, {Name: "collow", N: 1 << 20}, {Name: "colhigh", N: 1 << 20}}).Draw(t, "producer")
+		src := prod.New()
+		holes := rapid.IntRange(0, 3).Draw(t, "holes")
+		total := 0.0
+		for i := 0; i < n; i++ {
+			if holes > 0 && i%1000 == 7*holes {
+				continue // a few empty bins inside the run
+			}
+			w := 1.0
+			if i%97 == 0 {
+				w = 2.5
+			}
+			src.AddWithCount(base+i, w)
+			total += w
+		}
+		enc := encodeStore(src)
+		cl.logf("C06 wide contiguous run=%d base=%d producer=%s encoding %d bytes", n, base, prod, len(enc))
+		cl.label("wide-contiguous-run")
+		cl.labelIf(n > 65535, "contiguous-block>65535-bins")
+		for _, tk := range []gen.StoreKind{{Name: "dense"}, {Name: "sparse"}, {Name: "paginated"}, {Name: "collow", N: 1 << 20}, {Name: "colhigh", N: 1 << 20}} {
+			tgt := tk.New()
+			tgt.AddWithCount(base+5, 4) // a non-empty receiver: decoding merges
+			if err := decodeInto(tgt, enc); err != nil {
+				t.Fatalf("C06 wide contiguous (%d bins from %s): decoding into %s failed: %v", n, prod, tk, err)
+			}
+			if got := tgt.TotalCount(); got != total+4 {
+				t.Fatalf("C06 wide contiguous -> %s: total %v, expected %v", tk, got, total+4)
+			}
+			bad := ""
+			src.ForEach(func(i int, c float64) bool {
+				return false
+			})
+			seen := 0
+			tgt.ForEach(func(i int, c float64) bool {
+				want := 1.0
+				if (i-base)%97 == 0 {
+					want = 2.5
+				}
+				if i == base+5 {
+					want += 4
+				}
+				if c != want {
+					bad = fmt.Sprintf("bin %d holds %v, expected %v", i, c, want)
+				}
+				seen++
+				return bad != ""
+			})
+			if bad != "" {
+				t.Fatalf("C06 wide contiguous -> %s: %s", tk, bad)
+			}
+			mn, _ := tgt.MinIndex()
+			mx, _ := tgt.MaxIndex()
+			smn, _ := src.MinIndex()
+			smx, _ := src.MaxIndex()
+			if mn != smn || mx != smx {
+				t.Fatalf("C06 wide contiguous -> %s: index range [%d,%d], source [%d,%d]", tk, mn, mx, smn, smx)
+			}
+		}
+		cl.done(true)
 	})
 }
